@@ -298,11 +298,49 @@ def peakless_accepted_clause(cl, rng, n, replay):
                     return
 
 
+def per_azimuth_clause(cl, rng, n, replay):
+    """the curve sets held by an azimuthal result - one HvsrTraditional per azimuth - after a time-domain rejection with the azimuthal result attached: each of them is a set of
+    HVSR curves whose statistics are over its accepted windows only, and the accepted windows are the selection the rejection returned"""
+    import hvsrpy
+    from bounded import refproc as rp
+    for j in range(n):
+        k, m, naz = int(rng.integers(5, 10)), int(rng.integers(20, 40)), int(rng.integers(2, 4))
+        f = np.geomspace(0.2, 20, m)
+        As = [np.array([1 + rng.uniform(1, 4) * np.exp(-(np.log(f / rng.uniform(0.6, 8)) / rng.uniform(0.15, 0.4)) ** 2) + 0.15 * np.abs(rng.normal(0, 1, m)) for _ in range(k)])
+              for _ in range(naz)]
+        az = hvsrpy.HvsrAzimuthal([hvsrpy.HvsrTraditional(f, A) for A in As], list(np.linspace(0, 120, naz)))
+        if any(np.isnan(hv._main_peak_frq).any() for hv in az.hvsrs):
+            cl.skipped += 1          # a window without a peak: the ill-formed state of known finding F-9 (its own clause)
+            continue
+        recs = []
+        for w in range(k):
+            ns, ew, vt, dt_ = rp.gen_window(rng, N=400, dt=0.01)[:4]
+            if w == 1 or rng.random() < 0.3:
+                for c in (ns, ew, vt):
+                    c[180:200] *= 60.0
+            recs.append(rp.mk_record(ns, ew, vt, dt_))
+        if j % 2:
+            kept = hvsrpy.sta_lta_window_rejection(recs, sta_seconds=0.2, lta_seconds=2, min_sta_lta_ratio=0.1, max_sta_lta_ratio=4.0, hvsr=az)
+            name = "sta-lta"
+        else:
+            kept = hvsrpy.maximum_value_window_rejection(recs, maximum_value_threshold=0.5, normalized=True, hvsr=az)
+            name = "maximum-value"
+        sel = np.array([any(r is q for q in kept) for r in recs])
+        cl.case((j, k, m, naz, name), nontrivial=bool((~sel).any()))
+        if sel.sum() < 3:
+            continue
+        for a, (hv, A) in enumerate(zip(az.hvsrs, As)):
+            if not check_stats(cl, hv, f, A, "hvsrpy.hvsr_traditional.HvsrTraditional", [("azimuth", a), (name, sel.astype(int).tolist())]):
+                return
+
+
 CLAUSES = [
     ("cross-check:every statistic == textbook estimator over the accepted windows after random histories (range updates, FDWRA, manual, mask replacement)", "cross-check",
      "4-11 windows x 20-50 samples (some peak-less), up to 6 history steps, 3 distribution spellings", "hvsrpy.hvsr_traditional.HvsrTraditional", (60, 1500), history_clause),
     ("bounded:fn statistics ignore accepted windows that have no peak in the range", "bounded", "6-11 windows, 1+ peak-less accepted window, 3 distribution spellings",
      "hvsrpy.statistics._nanmean_weighted", (20, 300), peakless_accepted_clause),
+    ("bounded:the per-azimuth curve sets of an azimuthal result after a time-domain rejection: statistics over the windows the rejection kept", "bounded",
+     "2-3 azimuths x 5-9 windows x 20-39 samples, STA/LTA and maximum-value rejection", "hvsrpy.window_rejection.maximum_value_window_rejection", (20, 200), per_azimuth_clause),
     ("bounded:well-formedness of the masks is preserved by every mutator (F-9 state)", "bounded", "one constructed history", "hvsrpy.window_rejection.sta_lta_window_rejection", (1, 1), known_f9_clause),
 ]
 
